@@ -275,11 +275,10 @@ func (r *Runner) setVarWithIndex(prev expand.Variable, name string, index syntax
 	case expand.Associative:
 		// if the existing variable is already an AssocArray, try our
 		// best to convert the key to a string
-		w, ok := index.(*syntax.Word)
+		k, ok := r.assocKey(index)
 		if !ok {
 			return
 		}
-		k := r.literal(w)
 
 		// TODO: only clone when inside a subshell and getting a var from outside for the first time
 		prev.Map = maps.Clone(prev.Map)
@@ -379,6 +378,22 @@ func (r *Runner) setFunc(name string, body *syntax.Stmt) {
 	r.Funcs[name] = body
 }
 
+// assocKey expands the subscript of an associative array to its key. The
+// parser hands over subscripts such as -1 as arithmetic expressions rather
+// than words; for an associative array they are just text.
+func (r *Runner) assocKey(index syntax.ArithmExpr) (string, bool) {
+	switch index := index.(type) {
+	case *syntax.Word:
+		return r.literal(index), true
+	case *syntax.UnaryArithm:
+		if !index.Post && (index.Op == syntax.Minus || index.Op == syntax.Plus) {
+			key, ok := r.assocKey(index.X)
+			return index.Op.String() + key, ok
+		}
+	}
+	return "", false
+}
+
 func stringIndex(index syntax.ArithmExpr) bool {
 	w, ok := index.(*syntax.Word)
 	if !ok || len(w.Parts) != 1 {
@@ -444,7 +459,11 @@ func (r *Runner) assignVal(name string, prev expand.Variable, as *syntax.Assign,
 	if valType == "-A" {
 		amap := make(map[string]string, len(elems))
 		for _, elem := range elems {
-			k := r.literal(elem.Index.(*syntax.Word))
+			k, ok := r.assocKey(elem.Index)
+			if !ok {
+				r.errf("unsupported associative array subscript\n")
+				continue
+			}
 			amap[k] = r.literal(elem.Value)
 		}
 		if !as.Append {
